@@ -84,6 +84,12 @@ fn main() {
       let back = decode_vc(&claims)?;
       if back != c { return Err(format!("round trip differs for issuer {issuer}")); }
     }
+    // an explicit nonTransferable = false is a value, not an absence
+    for nt in ["true", "false"] {
+      let c: Credential = Credential::from_json(&format!(r#"{{"@context":"https://www.w3.org/2018/credentials/v1","type":["VerifiableCredential"],"issuer":"{DID}","issuanceDate":"2010-01-01T19:23:24Z","credentialSubject":{{"id":"did:example:s"}},"nonTransferable":{nt}}}"#)).map_err(|e| e.to_string())?;
+      let back = decode_vc(&c.serialize_jwt(None).map_err(|e| e.to_string())?)?;
+      if back.non_transferable != c.non_transferable { return Err(format!("nonTransferable {:?} comes back as {:?}", c.non_transferable, back.non_transferable)); }
+    }
     Ok(())
   });
   w("jc_presentation_duplicates_must_agree", || {
